@@ -8,9 +8,11 @@ import (
 	"encoding/json"
 	"fmt"
 	"os"
+	"reflect"
 	"sort"
 	"strings"
 
+	"github.com/martian-lang/martian/martian/core"
 	"github.com/martian-lang/martian/martian/syntax"
 	"verif/harness/run"
 )
@@ -202,6 +204,20 @@ func readRows(path string, each func([]byte) error) error {
 	return nil
 }
 
+// sameJSON: the same value, whatever the order of keys and the spacing (numbers digit by digit)
+func sameJSON(a, b []byte) bool {
+	dec := func(x []byte) (interface{}, error) {
+		d := json.NewDecoder(bytes.NewReader(x))
+		d.UseNumber()
+		var v interface{}
+		err := d.Decode(&v)
+		return v, err
+	}
+	va, ea := dec(a)
+	vb, eb := dec(b)
+	return ea == nil && eb == nil && reflect.DeepEqual(va, vb)
+}
+
 // Main: vh types-replay <values.ndjson> <assign.ndjson> <unsound.ndjson>
 type heldResult struct {
 	out, saved []byte
@@ -223,6 +239,20 @@ func Main(args []string) int {
 		}
 		return lookup.Get(id)
 	}
+	tid := func(t T) syntax.TypeId {
+		id := syntax.TypeId{Tname: t.B, ArrayDim: t.A}
+		if t.M != 0 {
+			id.MapDim = t.Ia + 1
+		}
+		return id
+	}
+	// the outputs of a callable whose one output x has the given type, as the struct
+	// type bindings are resolved against
+	outsOf := func(t T) *syntax.StructType {
+		m := &syntax.StructMember{Id: "x", Tname: tid(t)}
+		return &syntax.StructType{Id: "PRODUCER", Members: []*syntax.StructMember{m}, Table: map[string]*syntax.StructMember{"x": m}}
+	}
+	allVals := map[string][]json.RawMessage{} // type -> every value of its rows (tagged)
 	rep := &Report{Violations: []Finding{}, Predicted: []Finding{}, Samples: []Finding{}}
 	viol := func(kind string, t, other T, val []byte, format string, a ...interface{}) {
 		f := Finding{Kind: kind, Type: t.String(), Value: string(val), Detail: fmt.Sprintf(format, a...)}
@@ -253,6 +283,7 @@ func Main(args []string) int {
 		if r.Valid {
 			validVals[r.T.String()] = append(validVals[r.T.String()], r.V)
 		}
+		allVals[r.T.String()] = append(allVals[r.T.String()], r.V)
 		pred, _ := run.Untag(r.Fv)
 		pred = fixKeys(pred)
 		for form := 0; form < 3; form++ {
@@ -261,6 +292,23 @@ func Main(args []string) int {
 			var al strings.Builder
 			if hardErr := ty.IsValidJson(b, &al, lookup); (hardErr == nil) != r.Accepts {
 				viol("validation", r.T, T{}, b, "IsValidJson returns error = %v, a value of this shape must %sbe an error", hardErr, map[bool]string{true: "not ", false: ""}[r.Accepts])
+			}
+			// the same verdict where mrp applies it: to the outputs a stage wrote and to the
+			// arguments it is handed
+			{
+				id := tid(r.T)
+				op := &syntax.OutParam{StructMember: syntax.StructMember{Id: "x", Tname: id}}
+				ip := &syntax.InParam{Id: "x", Tname: id}
+				am := core.LazyArgumentMap{"x": json.RawMessage(b)}
+				oerr, _ := am.ValidateOutputs(lookup, &syntax.OutParams{List: []*syntax.OutParam{op}, Table: map[string]*syntax.OutParam{"x": op}})
+				if (oerr == nil) != r.Accepts {
+					viol("output-validation", r.T, T{}, b, "ValidateOutputs returns error = %v for an output x of this type, a value of this shape must %sbe an error", oerr, map[bool]string{true: "not ", false: ""}[r.Accepts])
+				}
+				ierr, _ := am.ValidateInputs(lookup, &syntax.InParams{List: []*syntax.InParam{ip}, Table: map[string]*syntax.InParam{"x": ip}})
+				if (ierr == nil) != r.Accepts {
+					viol("input-validation", r.T, T{}, b, "ValidateInputs returns error = %v for an argument x of this type, a value of this shape must %sbe an error", ierr, map[bool]string{true: "not ", false: ""}[r.Accepts])
+				}
+				rep.Renderings += 2
 			}
 			ok, why := clean(ty, b)
 			if ok != r.Valid {
@@ -335,6 +383,22 @@ func Main(args []string) int {
 		}
 		if !got {
 			return nil
+		}
+		// the binding of an output x of type s to a parameter of type t delivers what
+		// filtering to t gives, and fails where filtering fails
+		src := outsOf(r.S)
+		for _, v := range allVals[r.S.String()] {
+			b := render(v, 0)
+			rep.SoundChecks++
+			want, wfatal, _ := tt.FilterJson(b, lookup)
+			m, perr := core.LazyArgumentMap{"x": json.RawMessage(b)}.Path("x", src, tt, lookup)
+			if wfatal != (perr != nil) {
+				viol("binding", r.T, r.S, b, "binding the output to a parameter of the type: error = %v, FilterJson fatal = %v", perr, wfatal)
+			} else if !wfatal && m != nil {
+				if got, err := m.MarshalJSON(); err != nil || !sameJSON(got, want) {
+					viol("binding", r.T, r.S, b, "binding the output to a parameter of the type delivers %s, filtering gives %s (%v)", string(got), string(want), err)
+				}
+			}
 		}
 		// soundness: a value valid for s, filtered to t, is valid for t
 		for _, v := range validVals[r.S.String()] {
